@@ -372,22 +372,29 @@ def record_run(rep, spec, v):
 
 def run_check(prop, args, profile, rule, signature, nontrivial, crash_mode=False, engine='pipe', family=None,
               hashseeds_quick=(0, 1, 2, 3), hashseeds_thorough=(0, 1, 2, 3, 4, 5, 6, 7), batch=64, budget_quick=60, budget_thorough=900,
-              after_round=None, assumptions=None, extra_evidence=None):
+              after_round=None, assumptions=None, extra_evidence=None, rep=None, pool=None, finish=True, budget=None):
     """Generic seeded search loop for the pipe checks.
     signature(spec, value) -> hashable shape signature; nontrivial(spec, value) -> bool."""
-    rep = common.Report(prop, args, engine)
-    rep.rule = rule
-    rep.assumptions = assumptions or []
-    if args.replay:
-        return replay(prop, args, rep)
-    budget = args.budget or (budget_quick if args.tier == 'quick' else budget_thorough)
-    hs = list(hashseeds_quick if args.tier == 'quick' else hashseeds_thorough)
-    pool = common.ZygotePool(hashseeds=hs)
+    own_rep = rep is None
+    if own_rep:
+        rep = common.Report(prop, args, engine)
+        rep.rule = rule
+        rep.assumptions = assumptions or []
+        if args.replay:
+            return replay(prop, args, rep)
+    budget = budget or args.budget or (budget_quick if args.tier == 'quick' else budget_thorough)
+    own_pool = pool is None
+    if own_pool:
+        hs = list(hashseeds_quick if args.tier == 'quick' else hashseeds_thorough)
+        pool = common.ZygotePool(hashseeds=hs)
+    hs = list(pool.hashseeds)
     rep.hashseeds.update(hs)
-    rng = random.Random(f'{prop}/{args.seed}')
+    rng = random.Random(f'{prop}/pipe/{args.seed}')
     stop = False
     rounds = 0
-    while rep.elapsed() < budget and not stop:
+    import time as _time
+    t_start = _time.time()
+    while _time.time() - t_start < budget and not stop:
         rounds += 1
         specs = [gen_spec(rng, profile) for _ in range(batch)]
         for s in specs:
@@ -448,13 +455,18 @@ def run_check(prop, args, profile, rule, signature, nontrivial, crash_mode=False
                     stop = handle_violation(pool, rep, prop, cs, x, phase_index=pi, census=census) and not args.keep_going
         if after_round and not stop:
             stop = bool(after_round(pool, rep, rng, specs, results)) and not args.keep_going
-    rep.extra['rounds'] = rounds
-    rep.extra['real_components'] = ['outrank.__main__.main -> outrank_task_conduct_ranking -> estimate_importances_minibatches -> compute_batch_ranking -> mixed_rank_graph -> heuristics / numba kernels; csv, pandas, gzip, sketches (all from /repo)']
-    rep.extra['stub_components'] = ['SimPool for pathos ProcessingPool (sim/pool.py)', 'SimClock for time.sleep/timer', 'SimFS interposer on builtins.open/os.remove (real files on tmpfs)', 'PoisonAllocator (optional, swarm-selected)']
+    rep.extra['rounds'] = rep.extra.get('rounds', 0) + rounds
+    rep.extra.setdefault('real_components', [])
+    rep.extra.setdefault('stub_components', [])
+    rep.extra['real_components'] += ['outrank.__main__.main -> outrank_task_conduct_ranking -> estimate_importances_minibatches -> compute_batch_ranking -> mixed_rank_graph -> heuristics / numba kernels; csv, pandas, gzip, sketches (all from /repo)']
+    rep.extra['stub_components'] += ['SimPool for pathos ProcessingPool (sim/pool.py)', 'SimClock for time.sleep/timer', 'SimFS interposer on builtins.open/os.remove (real files on tmpfs)', 'PoisonAllocator (optional, swarm-selected)']
     if extra_evidence:
         rep.extra.update(extra_evidence(rep))
+    if not finish:
+        return stop
     code = rep.finish()
-    pool.close()
+    if own_pool:
+        pool.close()
     return code
 
 
